@@ -94,10 +94,10 @@ static bool frame_answers(const Frame &f, const HRec &r, bool ext) {
 }
 
 // no failure cause of any kind on endpoint ei while this attempt was outstanding
-bool AsyncSim::ha_endpoint_clean(const HRec &r, const Attempt &a, size_t ei, std::string &why) {
+bool AsyncSim::ha_endpoint_clean(const HRec &r, const Attempt &a, size_t ei, std::string &why, uint64_t upto) {
 	(void)r;
 	SimEndpoint &e = eps[ei];
-	uint64_t lo = prev_run_end_before(a.accepted_seq), hi = K.seq;
+	uint64_t lo = prev_run_end_before(a.accepted_seq), hi = upto ? upto : K.seq;
 	if (snd_to == 0 || rcv_to == 0 || (con_to == 0 && !e.http)) { why = "zero timeout"; return false; }
 	int mn = std::min(snd_to, rcv_to);
 	if (!e.http) mn = std::min(mn, con_to);
@@ -111,7 +111,12 @@ bool AsyncSim::ha_endpoint_clean(const HRec &r, const Attempt &a, size_t ei, std
 		if (f.info.has_resp && f.info.status != 0) { why = "error status"; return false; }
 		if (f.clean_resp && svc_ext && !frame_answers(f, r, true) && f.info.has_cal && !f.info.cal_shape_ok) { why = "contradicting reply"; return false; }
 	}
-	for (auto &cp : N.conns) if (cp->ep == e.net_ep && cp->ended_seq >= lo && cp->ended_seq <= hi && cp->end_kind != "") { why = "connection ended (" + cp->end_kind + ")"; return false; }
+	for (auto &cp : N.conns) if (cp->ep == e.net_ep && cp->ended_seq >= lo && cp->ended_seq <= hi && cp->end_kind != "") {
+		// judged at an earlier moment (upto): an orderly or abortive end that had arrived but that no call of the client had reported yet,
+		// behind data still to be read, has not failed anything so far
+		if (upto && (cp->end_kind == "fin" || cp->end_kind == "rst") && (!cp->noticed_seq || cp->noticed_seq > hi)) continue;
+		why = "connection ended (" + cp->end_kind + ")"; return false;
+	}
 	for (auto &xp : C.xfers) if (xp->ep == e.net_ep && xp->done_seq >= lo && xp->done_seq <= hi && (xp->result != CURLE_OK || xp->http_code >= 400)) { why = "transfer failed"; return false; }
 	for (auto &d : N.dnsfail_log) if (d.second == e.net_ep && d.first >= lo && d.first <= hi) { why = "dns"; return false; }
 	// a connection attempt that has not completed (delayed or black-holed SYN) is a pending failure cause
@@ -230,6 +235,17 @@ void AsyncSim::ha_on_returned(KSI_AsyncHandle *h, size_t waiting) {
 		for (size_t ei = 0; ei < eps.size(); ei++) {
 			if (ei < rec->sub_full.size() && rec->sub_full[ei]) continue;
 			std::string why;
+			// a valid reply that the client had already taken from the socket while nothing had gone wrong at that endpoint yet
+			// completes the request, whatever happens to the connection afterwards
+			if (!eps[ei].http) for (auto &ss : ha_sent_all(*rec, ei, a.accepted_seq)) for (auto &f : frames) {
+				if (f.ep != (int)ei || !f.clean_resp || f.info.id != ss.first || f.arrive_seq <= ss.second || !f.read_seq || f.read_seq > K.seq) continue;
+				if (svc_ext && !frame_answers(f, *rec, true)) continue;
+				std::string w2;
+				if (ha_endpoint_clean(*rec, a, ei, w2, f.read_seq)) {
+					K.fail("C15", "error-although-an-endpoint-did-not-fail", "valid-reply-received-before-the-failure", "request #%d ended with error 0x%x although endpoint %zu's valid reply had been read before anything failed there", rec->idx, err, ei);
+					return;
+				}
+			}
 			if (ha_endpoint_clean(*rec, a, ei, why)) {
 				bool replied = false;
 				for (auto &f : frames) if (f.ep == (int)ei && frame_answers(f, *rec, svc_ext)) replied = true;
